@@ -338,12 +338,31 @@ INV_POINTS = [1, 2, 3, 5, 7, 255, 256, (1 << 32) - 1, 1 << 32, (1 << 32) + 1, (1
               0x00000001fffffffe, 0xfffffffe00000002, 4294967297 * 3, 18446744069414584320 // 3]
 
 
+def _slow_euclid_operands():
+    """operands with long Euclidean remainder sequences against p: p/phi and its neighbours, and ratios of consecutive
+    Fibonacci numbers scaled to p (the worst case of Lame's bound) - a loop that gives up early is seen on these"""
+    out = []
+    num, den = 1, 1
+    fibs = [(1, 1)]
+    for _ in range(90):
+        num, den = den, num + den
+        fibs.append((num, den))
+    for a_, b_ in fibs[20:90:7]:
+        v = P * a_ // b_
+        out += [v, v + 1, v - 1]
+    phi_inv = 11400714818402800990        # floor(2^64 / phi)
+    v = P * phi_inv >> 64
+    out += [v, v + 1, v - 1, v + 1753936218, P - v, (P - v) + 1]
+    out += [11400714816648762772]
+    return [x for x in out if 0 < x < (1 << 64) and x % P != 0]
+
+
 def check_inv_points(rep, mod, tier):
     """constant propagation through inv for singleton operands (both canonical and non-canonical representations):
     the loop must terminate within the Euclid bound and the result times the operand must be one"""
     name = mod.find(SIG_INV)
     site = site_of(mod, name)
-    pts = list(INV_POINTS)
+    pts = list(INV_POINTS) + _slow_euclid_operands()
     if tier != 'quick':
         import random
         rnd = random.Random(10)
